@@ -488,6 +488,22 @@ pub fn rec_c05(ch: &mut Chunker, is_fill: bool, text: &str, o: &Opts, pre: &[Str
 
 fn gen_c05(ch: &mut Chunker, r: &mut Rng, _thorough: bool, scale: usize) {
     let ocfg = OptCfg { indents: true, custom_splitters: true, algs: &[0, 1, 2], crlf: false };
+    // CRLF corner cases: lone CR / LF are ordinary text under the CRLF line ending; widths on both sides of the byte length
+    for (i, text) in all_strings(&['a', ' ', '\r', '\n'], 4).iter().enumerate() {
+        for w in [text.len().saturating_sub(1), text.len(), text.len() + 1, text.len() + 2] {
+            let mut o = gen_opts(r, &ocfg, w);
+            o.crlf = true;
+            o.splitter = Splitter::Hyphen;
+            o.ii.clear();
+            if i % 2 == 0 {
+                o.si.clear();
+            }
+            rec_c05(ch, true, text, &o, &[]);
+            if !text.contains("\r\n") {
+                rec_c05(ch, false, text, &o, &[]);
+            }
+        }
+    }
     for i in 0..500 * scale {
         let is_fill = i % 2 == 0;
         let tc = TextCfg { max_words: 5, max_paras: if is_fill { 2 } else { 1 }, ansi: if i % 3 == 0 { Ansi::Any } else { Ansi::WellFormed }, unicode: true, ctrl: false, crlf: false };
